@@ -149,6 +149,7 @@ var glUnits = []glUnit{
 		{"protocol/model", "T0x0200", "ReplyBody"},
 		{"protocol/model", "T0x0801", "ReplyBody"},
 		{"protocol/model", "T0x0704", "ReplyBody"},
+		{"protocol/model", "T0x0200LocationItem", "parse"},
 	}},
 }
 
